@@ -190,8 +190,12 @@ func (dr *driver) ringMerge(c *mergeCase) {
 	for _, i := range c.Taken {
 		taken[i] = true
 	}
-	for rep := 0; rep < dr.reps; rep++ {
-		emb := dr.embedding(m, rep)
+	reps := dr.reps
+	if n == 1 {
+		reps = 1 // no map-order dimension with a single entry
+	}
+	for rep := 0; rep < reps; rep++ {
+		emb := dr.embedding(m, rep+dr.counts["merge"])
 		mine := abs.BuildDesc(c.Mine, abs.RingBuild{Emb: emb, Tag: "mine"})
 		other := abs.BuildDesc(c.Other, abs.RingBuild{Emb: emb, Rnd: dr.rnd, Tag: "other"})
 		if got := abs.UnixToTs(time.Now().Unix()); got != c.Now {
@@ -544,6 +548,17 @@ func TestC03(t *testing.T) {
 	dr := &driver{res: res, rnd: rand.New(rand.NewSource(abs.Seed())), reps: abs.EnvInt("VERIF_REPS", 3),
 		counts: map[string]int{}, samples: map[string]bool{}}
 
+	// VERIF_CONV_EVERY=k: only every k-th convergence triple (offset by the seed) is executed
+	convEvery, convSeen, convSkipped := abs.EnvInt("VERIF_CONV_EVERY", 1), 0, 0
+	skipConv := func() bool {
+		convSeen++
+		if convEvery > 1 && (int64(convSeen)+abs.Seed())%int64(convEvery) != 0 {
+			convSkipped++
+			return true
+		}
+		return false
+	}
+
 	// pass 1: which clock readings do the cases need
 	nowSet := map[int]bool{}
 	if in != "" {
@@ -597,7 +612,7 @@ func TestC03(t *testing.T) {
 						}
 						dr.partMerge(&c)
 					case "conv":
-						if ni != 0 {
+						if ni != 0 || skipConv() {
 							return nil
 						}
 						var c convCase
@@ -606,7 +621,7 @@ func TestC03(t *testing.T) {
 						}
 						dr.ringConv(&c)
 					case "pconv":
-						if ni != 0 {
+						if ni != 0 || skipConv() {
 							return nil
 						}
 						var c pconvCase
@@ -638,5 +653,6 @@ func TestC03(t *testing.T) {
 	for k, v := range dr.counts {
 		res.AddExtra("cases_"+k, v)
 	}
+	res.AddExtra("conv_skipped", convSkipped)
 	res.Write(t)
 }
